@@ -45,10 +45,11 @@ impl Monitor for C15 {
             ("calls_with_gc_position_records", tier.pick(100, 2_000)),
             ("calls_spanning_a_rollover", tier.pick(3_000, 60_000)),
             ("calls_reporting_zero_with_empty_trace", tier.pick(5_000, 100_000)),
+            ("calls_whose_gc_met_an_injected_unlink_failure", tier.pick(2_000, 40_000)),
         ]
     }
     fn rule(&self) -> String {
-        "case = one generated history (align / gc / idle / bigname / mixed profiles); under Always(Flush|FlushAndFsync) evaluation = one create/delete/append/truncate call whose reported wal_bytes_written must equal the summed length of write-family syscalls on WAL files inside the call's trace window (and be 0 exactly when there is none); under lazy policies the running sum of reported bytes must equal the running sum of traced bytes at every point where the write buffer is known to be empty (after create_queue, delete_queue, explicit persist, and at shutdown); distinct_nontrivial = distinct (call kind, bytes left in block before the call, padding seen, files touched, GC records) tuples".into()
+        "case = one generated history (align / gc / idle / bigname / mixed profiles); under Always(Flush|FlushAndFsync) evaluation = one create/delete/append/truncate call whose reported wal_bytes_written must equal the summed length of write-family syscalls on WAL files inside the call's trace window (and be 0 exactly when there is none) - one truncate/delete call in five runs with the first unlink of its window failing with EACCES: if the call still returns Ok its count must be right (an Err is not a C15 subject); under lazy policies the running sum of reported bytes must equal the running sum of traced bytes at every point where the write buffer is known to be empty (after create_queue, delete_queue, explicit persist, and at shutdown); distinct_nontrivial = distinct (call kind, bytes left in block before the call, padding seen, files touched, GC records) tuples".into()
     }
     fn assumptions(&self) -> Vec<String> {
         vec![
@@ -80,6 +81,7 @@ impl Monitor for C15 {
         let mut reported_sum = 0u64;
         let mut traced_sum = 0u64;
         let mut sampled = false;
+        let mut fault_hit = false;
         for _ in 0..nops {
             let cursor_before = d.cursor;
             let op = d.gen.next_op(if exact { Some(d.cursor) } else { None });
@@ -103,6 +105,13 @@ impl Monitor for C15 {
                 }
                 let st = d.apply(Op::Restart);
                 if let Outcome::Err(e) = &st.outcome {
+                    if fault_hit {
+                        // a WAL file the GC pass failed to unlink stays behind, untracked: the
+                        // next open may refuse the directory.  A history with a failed call is
+                        // outside C01's "successful calls"; nothing here is a C15 subject.
+                        acc.count("restarts_refused_after_an_injected_unlink_failure_(not_a_C15_subject)");
+                        return;
+                    }
                     acc.inconclusive(format!("restart failed (C01 territory): {:?}", e));
                     return;
                 }
@@ -110,8 +119,23 @@ impl Monitor for C15 {
                 traced_sum = 0;
                 continue;
             }
+            // one call in five that may collect files meets a failing unlink: whatever the call
+            // then returns, an Ok must still carry the bytes it wrote
+            let unlink_fault = exact && matches!(op, Op::Truncate { .. } | Op::Delete { .. }) && rng.chance(1, 5);
+            if unlink_fault {
+                crate::shim::fault(crate::shim::CL_UNLINK, 1, libc::EACCES, false);
+            }
             let st = d.apply(op);
+            let unlink_failed = unlink_fault && st.events.iter().any(|e| matches!(e, Ev::Unlink { err, .. } if *err != 0));
+            if unlink_failed {
+                acc.count("calls_whose_gc_met_an_injected_unlink_failure");
+                fault_hit = true;
+            }
             if st.outcome.is_io_err() {
+                if unlink_failed {
+                    acc.count("calls_failed_by_the_injected_unlink_failure");
+                    continue;
+                }
                 acc.inconclusive(format!("I/O error from a live call: {:?}", st.outcome));
                 return;
             }
@@ -153,7 +177,7 @@ impl Monitor for C15 {
                 ));
                 if reported != traced {
                     acc.violation(
-                        format!("C15/reported-{}-traced/{}{}{}", if reported < traced { "less-than" } else { "more-than" }, st.op.kind(), if padded { "/with-padding" } else { "" }, if has_unlink { "/with-gc" } else { "" }),
+                        format!("C15/reported-{}-traced/{}{}{}{}", if reported < traced { "less-than" } else { "more-than" }, st.op.kind(), if padded { "/with-padding" } else { "" }, if has_unlink { "/with-gc" } else { "" }, if unlink_failed { "/unlink-failure-injected" } else { "" }),
                         case,
                         json!({
                             "history": d.history_json(300), "call": st.op.to_json(), "outcome": st.outcome.to_json(),
